@@ -40,34 +40,25 @@ Proof.
   rewrite A1, A2, A3, A4, A5, A6, B1, B2, B3, B4, B5, B6. split; reflexivity.
 Qed.
 
-(* the texts alone: right on the whole range, also for the pinned code *)
-Lemma texts_ok : forall t, in_range t = true -> c09_texts_ok t (observe (roundtrip t)) = true.
-Proof.
-  intros t Hr.
-  pose proof (text_ok_all t Hr S_TS) as A1. pose proof (text_ok_all t Hr S_TO) as A2.
-  pose proof (text_ok_all t Hr S_DO) as A3. pose proof (text_ok_all t Hr S_LD) as A4.
-  pose proof (text_ok_all t Hr S_M6) as A5. pose proof (text_ok_all t Hr S_M8) as A6.
-  cbn [mkind] in *.
-  unfold c09_texts_ok, roundtrip, roundtrip_gen, all_kinds, kinds, observe. rewrite Hr.
-  cbn [negb orb map all2 fst snd].
-  rewrite A1, A2, A3, A4, A5, A6. reflexivity.
-Qed.
-
-(* pinned code: every tick count before 2038-01-19T03:14:08 *)
-Lemma roundtrip_partial_lemma : forall t, 0 <= t < 2147483648 * NS_SEC ->
+(* fix8 as pinned: the whole range 1970-01-01 .. 2100-01-01, every nanosecond tick count *)
+Lemma roundtrip_lemma : forall t, in_range t = true ->
   c09_ok t (observe (roundtrip t)) = true /\ forallb (fun p => ub_free (snd p)) (roundtrip t) = true.
+Proof. intros t Hr. apply roundtrip_gen_ok; [exact Hr|left; reflexivity]. Qed.
+
+Lemma parse_lemma : forall k s v, denote k s = Some v -> in_range v = true ->
+  field_parse (mkind k) s = Ticks v false.
+Proof. intros. apply parse_follows_denote; auto. left. reflexivity. Qed.
+
+(* before the repair (int arithmetic): only the tick counts before 2038-01-19T03:14:08 ... *)
+Lemma roundtrip_orig_partial_lemma : forall t, 0 <= t < 2147483648 * NS_SEC ->
+  c09_ok t (observe (roundtrip_orig t)) = true /\ forallb (fun p => ub_free (snd p)) (roundtrip_orig t) = true.
 Proof.
   intros t Ht. apply roundtrip_gen_ok.
   - unfold in_range, DAYS, NS_DAY, NS_SEC in *. apply andb_true_intro. split; [apply Z.leb_le|apply Z.ltb_lt]; lia.
   - right. lia.
 Qed.
 
-(* time_to_epoch evaluated in 64 bits: the whole range *)
-Lemma roundtrip_wide_lemma : forall t, in_range t = true ->
-  c09_ok t (observe (roundtrip_gen true t)) = true.
-Proof. intros t Hr. apply roundtrip_gen_ok; [exact Hr|left; reflexivity]. Qed.
-
-(* pinned code, first second that does not fit an int *)
-Lemma y2038_refuted_lemma : exists t, in_range t = true /\ c09_ok t (observe (roundtrip t)) = false /\
-  forallb (fun p => ub_free (snd p)) (roundtrip t) = false.
+(* ... the first second that does not fit an int is the witness *)
+Lemma y2038_orig_refuted_lemma : exists t, in_range t = true /\ c09_ok t (observe (roundtrip_orig t)) = false /\
+  forallb (fun p => ub_free (snd p)) (roundtrip_orig t) = false.
 Proof. exists (2147483648 * NS_SEC). vm_compute. repeat split. Qed.
